@@ -583,7 +583,9 @@ class StrategyBase(Node):
 
             paper = deepcopy(self)
             paper.parent = paper
-            paper.root = paper
+            # the copy is the root of its own tree: its descendants must not
+            # keep pointing at the (deep-copied) root of the original tree
+            paper._set_root(paper)
             paper._paper_trade = False
             paper.setup(self._original_data, **kwargs)
             paper.adjust(self._paper_amount)
